@@ -17,6 +17,8 @@ pub struct SyncSys {
     pub avoids: Vec<bool>,
     pub undo_points: bool,
     pub deletes: bool,
+    /// include commits of several operations (create+set, delete+create+set)
+    pub batches: bool,
     /// start from a world in which T1{p=base} exists on every replica and is synced
     pub populated: bool,
     /// only the first `active` replicas act (the others stay brand-new until something syncs them)
@@ -45,6 +47,7 @@ impl SyncSys {
             avoids: vec![false],
             undo_points: false,
             deletes: true,
+            batches: false,
             populated: false,
             active: r,
             c01: true,
@@ -219,8 +222,14 @@ impl Sys for SyncSys {
                 if !present {
                     if self.deletes || !self.populated {
                         out.push(Act::Create { r, t });
+                        if self.batches {
+                            out.push(Act::CreateSet { r, t });
+                        }
                     }
                 } else {
+                    if self.batches && self.deletes {
+                        out.push(Act::Recreate { r, t });
+                    }
                     for (p, v, ts) in &self.updates {
                         out.push(Act::Update {
                             r,
